@@ -473,31 +473,43 @@ def possibility (op : Str) : Option (List Int) :=
 
 def mkPlain (c : Cls) (major minor patch : Nat) : Obj := { cls := c, major := major, minor := minor, patch := patch }
 
-/-- `self.match(expr)` -/
-def matchExpr (v : Obj) (expr : Str) : R Bool := do
-  let (op, m) ← validateExprMatch expr
+/-- upper bound used by `~=` / `~` -/
+def tildePair (c : Cls) (w : Obj) : Obj :=
+  if w.patch == 0 && w.minor == 0 then mkPlain c (w.major + 1) 0 0
+  else if w.patch == 0 && w.minor > 0 then mkPlain c (w.major + 1) 0 0
+  else if w.patch > 0 then mkPlain c w.major (w.minor + 1) 0
+  else mkPlain c 0 0 0
+
+/-- upper bound used by `^` -/
+def caretPair (c : Cls) (w : Obj) : Obj :=
+  if w.major > 0 then mkPlain c (w.major + 1) 0 0
+  else if w.minor > 0 then mkPlain c 0 (w.minor + 1) 0
+  else if w.patch > 0 then mkPlain c 0 0 (w.patch + 1)
+  else mkPlain c 0 0 0
+
+/-- the part of `match` after the expression has been split and its version parsed:
+    `cmpRes` is `self.compare(match)` -/
+def matchCore (v : Obj) (op : Str) (w : Obj) (cmpRes : Int) : R Bool := do
   let poss ← match possibility op with
     | some p => pure p
     | Option.none => .error .pyKey
-  let cmpRes ← vcompare v (.str m)
-  let w ← parse v.cls m
   if Gen.match_tilde_ops.contains op then
-    let pair : Obj :=
-      if w.patch == 0 && w.minor == 0 then mkPlain v.cls (w.major + 1) 0 0
-      else if w.patch == 0 && w.minor > 0 then mkPlain v.cls (w.major + 1) 0 0
-      else if w.patch > 0 then mkPlain v.cls w.major (w.minor + 1) 0
-      else mkPlain v.cls 0 0 0
-    let c2 ← vcompare v (.obj pair)
+    let c2 ← vcompare v (.obj (tildePair v.cls w))
     pure (poss.contains cmpRes && c2 < 0)
-  else if op == "^".toList then
-    let pair : Obj :=
-      if w.major > 0 then mkPlain v.cls (w.major + 1) 0 0
-      else if w.minor > 0 then mkPlain v.cls 0 (w.minor + 1) 0
-      else if w.patch > 0 then mkPlain v.cls 0 0 (w.patch + 1)
-      else mkPlain v.cls 0 0 0
-    let c2 ← vcompare v (.obj pair)
+  else if op == ['^'] then
+    let c2 ← vcompare v (.obj (caretPair v.cls w))
     pure (poss.contains cmpRes && c2 < 0)
   else pure (poss.contains cmpRes)
+
+/-- `self.match(expr)` -/
+def matchExpr (v : Obj) (expr : Str) : R Bool := do
+  let (op, m) ← validateExprMatch expr
+  match possibility op with
+  | Option.none => .error .pyKey
+  | some _ =>
+    let cmpRes ← vcompare v (.str m)
+    let w ← parse v.cls m
+    matchCore v op w cmpRes
 
 /-- `cls.extract_wildcard(expr)`: (lower, upper) with `none` = Inf -/
 def extractWildcard (c : Cls) (expr : Str) : R (Obj × Option Obj) :=
